@@ -233,6 +233,12 @@ def r2_cleanup_loop(run, w):
         inner = H.always_nodes(w, h, emits, depth=1)
         if inner and h.cfg.dominated_by(h.cfg.exit.id, inner):
           emit.add(n.id)
+  if not emit:
+    for (n, c, nm) in fn.calls():
+      if n.id in body and H.local_callee(w, fn, c) is not None and \
+          any(H.is_var(fn, a, uvar) for a in list(c.args) + [k.value for k in c.keywords]):
+        raise AnalysisError("doBulkRemoveRecord: the reported updates are handed to %s, which "
+                            "could not be followed to an emission" % short(c, 60))
   truthy = lambda e: H.nonempty_value(fn, e, uvar)
   after_q = set(cfg.normal_succ(un.id))
   leak = H.reach_assuming(cfg, after_q, truthy, removed=emit) & stops
@@ -283,18 +289,24 @@ def r3_registration(run, w):
   R3 = "C10-R3"
   # inverse_map exactness: C05-R5, recorded under C10-R3
   # (run on keyword-normalised copies: C05-R5 reads call arguments by position)
-  r5_reference_index(H.RuleAlias(run, {"C05-R5": R3}), H.NormWorld(w))
+  r5_reference_index(H.RuleAlias(run, {"C05-R5": R3}, w), H.NormWorld(w))
   run.rule(R3, "registration pairing: a reference column joins its target table's "
            "_back_references on creation and leaves on destroy, nobody else writes the set; the "
            "reverse index follows every write (C05-R5)", floor=12)
   for q, meths, what in (
       ("column.BaseReferenceColumn.__init__", ("add",), "registers itself"),
       ("column.BaseReferenceColumn.destroy", ("remove", "discard"), "unregisters itself")):
-    fn = w.fn(q)
+    fn = H.inlined_fn(w, q)
     cfg = fn.cfg
     sites = [(n, c) for (n, c, nm) in fn.calls()
              if nm in ["self._target_table._back_references." + m for m in meths] and
              len(c.args) == 1 and text(c.args[0]) == "self"]
+    if not sites and not any(isinstance(x, ast.Attribute) and x.attr == "_back_references"
+                             for x in ast.walk(fn.node)) and \
+        H.mentions_in_reach(w, fn, lambda x: isinstance(x, ast.Attribute) and
+                            x.attr == "_back_references", depth=2):
+      raise AnalysisError("%s: _back_references is written inside a helper that could not be "
+                          "read in place" % q)
     ok = len(sites) >= 1
     wit = None
     if ok:
@@ -344,7 +356,9 @@ def r3_registration(run, w):
       if hit is not None:
         run.ob(R3, fi.qualname, short(hit), "_back_references is written only by the table's "
                "constructor and by reference columns registering / unregistering themselves",
-               fi.qualname in BACKREF_OWNERS, fi=fi, node=hit, nontrivial=False)
+               fi.qualname in BACKREF_OWNERS or
+               (H.is_private_part(w, fi)[0] and H.is_private_part(w, fi)[1] in BACKREF_OWNERS),
+               fi=fi, node=hit, nontrivial=False)
 
 
 U = "sandbox/grist/useractions.py"
